@@ -120,6 +120,7 @@ func (sm *Subscriptions) ProcessWhen(activated, deactivated S) []chan struct{} {
 
 	// collect matched bindings
 	all := slices.Concat(activated, deactivated)
+	var touched []*WhenBinding
 	for _, s := range all {
 		// TODO optimize clone
 		for _, binding := range slices.Clone(sm.when[s]) {
@@ -160,16 +161,23 @@ func (sm *Subscriptions) ProcessWhen(activated, deactivated S) []chan struct{} {
 				binding.States[s] = false
 			}
 
-			// if not all matched, ignore for now
-			expired := binding.Ctx != nil && binding.Ctx.Err() != nil
-			if binding.Matched < binding.Total && !expired {
-				continue
+			if !slices.Contains(touched, binding) {
+				touched = append(touched, binding)
 			}
-
-			// completed - rm binding and collect ch
-			sm.gcWhenBinding(binding, true)
-			ret = append(ret, binding.Ch)
 		}
+	}
+
+	// judge the bindings once all the changes of this transition are counted
+	for _, binding := range touched {
+		// if not all matched, ignore for now
+		expired := binding.Ctx != nil && binding.Ctx.Err() != nil
+		if binding.Matched < binding.Total && !expired {
+			continue
+		}
+
+		// completed - rm binding and collect ch
+		sm.gcWhenBinding(binding, true)
+		ret = append(ret, binding.Ch)
 	}
 
 	return ret
